@@ -84,6 +84,12 @@ class MatrixProductOperator(EndomorphicOperator):
             if len(self._domain.shape) == 1 and spaces == (0, ):
                 spaces = None
 
+        if spaces is None and not flatten and len(self._domain.shape) > 1 \
+                and isinstance(matrix, np.ndarray):
+            # a matrix of shape (domain.shape, domain.shape) acts on all
+            # sub-domains (np.dot below only handles one-dimensional fields)
+            spaces = tuple(range(len(self._domain)))
+
         if spaces is None:
             self._spaces = None
             self._active_axes = utilities.my_sum(self._domain.axes)
